@@ -196,8 +196,12 @@ class LogTanh(Fam):
 
     def meta(self, cfg):
         c = cfg["cut"]
-        return _meta(cfg["shape"], ("Rb", 50.0), R_, special=[0.0, c, -c, c * (1 + 1e-9), -c * (1 + 1e-9), 10 * c, -10 * c],
-                     tags=["kink"])
+        # image of [-50, 50]: beyond the cut point the map only grows like alpha*log(beta*x), so its inverse explodes
+        # exponentially; the usable output range is small
+        alpha = (1 - math.tanh(math.tanh(c))) / c
+        ymax = math.tanh(c) + alpha * math.log(50.0 / c)
+        return _meta(cfg["shape"], ("Rb", 50.0), ("Rb", ymax),
+                     special=[0.0, c, -c, c * (1 + 1e-9), -c * (1 + 1e-9), 10 * c, -10 * c], tags=["kink"])
 
 
 @reg
@@ -1041,6 +1045,9 @@ class Inverse(Fam):
             dom_in = opn(dom_in[1] + 1e-3 * w, dom_in[2] - 1e-3 * w)
         if dom_in[0] == "pos":
             dom_in = opn(1e-3, 50.0)
+        if dom_in[0] == "Rb":
+            specials_ok = dom_in[1]
+        
         return {"shape": shape, "ctx_shape": m["ctx_shape"], "dom_in": dom_in, "dom_out": m["dom_in"],
                 "special": [s for s in m["special"] if _in_dom(s, dom_in)], "tags": set(m["tags"]) | {"inverse_wrapper"},
                 "edges": m["edges"] if m["dom_in"] == m["dom_out"] else []}
